@@ -33,6 +33,9 @@ Lemma hierarchy_facts :
   forallb (fun a => descends a a) all_classes = true.
 Proof. vm_compute. repeat split. Qed.
 
+(* from here on `descends` is used through the four facts only *)
+Local Opaque descends.
+
 Lemma desc_refl : forall a, descends a a = true.
 Proof.
   intros a. destruct hierarchy_facts as (_ & _ & _ & H). rewrite forallb_forall in H.
@@ -117,7 +120,7 @@ Proof.
   intros pe t. unfold dominated. split.
   - intros H u Hu Hd. destruct (evclass_eqb u t) eqn:E; [apply evclass_eqb_eq; assumption|].
     assert (X : existsb (fun t0 => negb (evclass_eqb t0 t) && descends t t0) pe = true).
-    { apply existsb_exists. exists u. rewrite E, Hd. tauto. }
+    { apply existsb_exists. exists u. rewrite E, Hd. split; [assumption | reflexivity]. }
     congruence.
   - intros H. destruct (existsb _ pe) eqn:E; [|reflexivity].
     apply existsb_exists in E. destruct E as [u [Hu X]]. apply andb_true_iff in X. destruct X as [X1 X2].
@@ -134,15 +137,15 @@ Proof.
   - destruct (IH eq_refl) as [m (Hm & Hcm & Htop)].
     destruct (descends c e) eqn:Ee.
     + destruct (desc_linear c e m Ee Hcm) as [L|L].
-      * exists m. repeat split; [right; assumption | assumption |].
+      * exists m. split; [|split]; [right; assumption | assumption |].
         intros u [<-|Hu] Hcu; [assumption | apply Htop; assumption].
-      * exists e. repeat split; [left; reflexivity | assumption |].
+      * exists e. split; [|split]; [left; reflexivity | assumption |].
         intros u [<-|Hu] Hcu; [apply desc_refl | eapply desc_trans; [apply Htop; assumption | assumption]].
-    + exists m. repeat split; [right; assumption | assumption |].
+    + exists m. split; [|split]; [right; assumption | assumption |].
       intros u [<-|Hu] Hcu; [congruence | apply Htop; assumption].
-  - rewrite orb_false_r in H. exists e. repeat split; [left; reflexivity | assumption |].
+  - rewrite orb_false_r in H. exists e. split; [|split]; [left; reflexivity | assumption |].
     intros u [<-|Hu] Hcu; [apply desc_refl|].
-    assert (X : existsb (fun t => descends c t) r = true) by (apply existsb_exists; exists u; tauto).
+    assert (X : existsb (fun t => descends c t) r = true) by (apply existsb_exists; exists u; split; assumption).
     congruence.
 Qed.
 
@@ -185,9 +188,11 @@ Proof.
   - rewrite filter_none; [reflexivity|].
     intros y Hy. apply subscription_spec in Hy. destruct Hy as [Hy _].
     destruct (descends c y) eqn:D; [|reflexivity].
-    assert (X : existsb (fun t => descends c t) pe = true) by (apply existsb_exists; exists y; tauto).
+    assert (X : existsb (fun t => descends c t) pe = true) by (apply existsb_exists; exists y; split; assumption).
     congruence.
 Qed.
+
+Local Transparent descends.
 
 Example one_delivery_example :
   subscription_types [ProcessStateRunningEvent; ProcessStateEvent; ProcessStateRunningEvent; Tick5Event]
